@@ -184,6 +184,20 @@ class Exec:
                     return self.getattr_(V(alt, ty.val(base.t, tag)), attr, st, node)
         raise Unsupported("attribute .%s on %r (line %s)" % (attr, base, getattr(node, "lineno", "?")))
 
+    def narrow(self, v, st, accept, line, what):
+        """a value of a union type used where only some alternatives make sense (x.keys(), x[k], len(x)): if exactly one acceptable
+        alternative is possible under the path condition (e.g. after `isinstance(x, Mapping)`), project to it; the projection is
+        backed by a safety obligation, so an incomplete feasibility check cannot make it unsound"""
+        ty = v.ty
+        cands = [(tag, alt) for tag, alt in ty.alts.items() if alt is not None and alt is not NONE and accept(alt)]
+        if len(cands) > 1:
+            cands = [(tag, alt) for tag, alt in cands if self.ctx.feasible(list(st.pc) + [ty.is_(v.t, tag)])]
+        if len(cands) != 1:
+            raise Unsupported("%s on a value of union type %s: %d possible alternatives (line %d)" % (what, ty, len(cands), line))
+        tag, alt = cands[0]
+        self.ctx.oblige("safety", st, ty.is_(v.t, tag), line, "%s on a union value that is not a %s" % (what, alt))
+        return V(alt, ty.val(v.t, tag))
+
     def ev_Subscript(self, node, st):
         base = self.ev(node.value, st)
         return self.subscript(base, node.slice, st, node)
@@ -224,6 +238,8 @@ class Exec:
                 tag, alt = alts[0]
                 self.ctx.oblige("safety", st, base.ty.is_(base.t, tag), line, "subscript of optional")
                 return self.subscript(V(alt, base.ty.val(base.t, tag)), sl, st, node)
+            return self.subscript(self.narrow(base, st, lambda a: isinstance(a, (DictT, ListT, SeqT, TupleT, RecT)) or a is STR,
+                                              line, "subscript"), sl, st, node)
         i = self.evz(sl, st, INT)
         val, ok = index(base, z3.simplify(i))
         self.ctx.oblige("safety", st, ok, line, "index in range")
@@ -450,6 +466,9 @@ class Exec:
         if isinstance(g.iter, ast.Call) and isinstance(g.iter.func, ast.Name) and g.iter.func.id == "zip" and "zip" not in st.env \
                 and len(g.iter.args) == 2 and not g.iter.keywords and mode in ("all", "any") and not g.ifs:
             return self.comp_fold_zip(comp, st, mode)
+        if isinstance(g.iter, ast.Call) and isinstance(g.iter.func, ast.Name) and g.iter.func.id == "range" and "range" not in st.env \
+                and len(g.iter.args) == 1 and not g.iter.keywords and mode == "list" and isinstance(g.target, ast.Name):
+            return self.comp_fold_range(comp, st)
         it = self.iter_value(g.iter, st)
         if isinstance(it, PyTup):
             vals = []
@@ -478,6 +497,7 @@ class Exec:
         names = sorted(used & set(st.env))
         tnames = {n.id for n in ast.walk(g.target) if isinstance(n, ast.Name)}
         free = [(n, st.env[n]) for n in names if n not in tnames and isinstance(st.env[n], V) and st.env[n].ty is not NONE]
+        free = [(n, self._prenarrow(v, st, comp)) for n, v in free]
         import hashlib as _h
         sig = "%s|%s|%s|%s|%s|%s|%s" % (mode, ast.unparse(comp.elt), ast.unparse(g.target), [ast.unparse(c) for c in g.ifs],
                                         it.ty.name, [(n, v.ty.name) for n, v in free], view)
@@ -523,6 +543,12 @@ class Exec:
                 rty = ct.get(getattr(comp, "_comp_no", None)) or ct.get("*")
                 if rty is None:
                     rty = getattr(self, "ret_ty", None) if isinstance(getattr(self, "ret_ty", None), (SeqT, ListT)) else None
+                    if rty is not None:
+                        # the enclosing function's result type is only a guess for a nested comprehension: it must fit the elements
+                        try:
+                            coerce(elt, rty.elem)
+                        except Unsupported:
+                            rty = None
                 if rty is None and isinstance(elt, V) and not isinstance(elt.ty, (ListT, DictT)):
                     rty = SeqT(elt.ty)
                 if rty is None:
@@ -542,6 +568,71 @@ class Exec:
         finally:
             self.ctx.spec_mode = old_spec
         raise Unsupported("comprehension mode %s" % mode)
+
+    def _prenarrow(self, v, st, node):
+        """a union-typed variable captured by a comprehension: the body is translated without the path condition, so if the path
+        condition leaves exactly one alternative (after an isinstance test) the captured value is that alternative"""
+        if not (isinstance(v, V) and isinstance(v.ty, UnionT)) or self.ctx.spec_mode:
+            return v
+        alts = [(tag, alt) for tag, alt in v.ty.alts.items() if alt is not None and alt is not NONE]
+        live = [(tag, alt) for tag, alt in alts if self.ctx.feasible(list(st.pc) + [v.ty.is_(v.t, tag)])]
+        nullary_live = [tag for tag, alt in v.ty.alts.items() if (alt is None or alt is NONE)
+                        and self.ctx.feasible(list(st.pc) + [v.ty.is_(v.t, tag)])]
+        if len(live) == 1 and not nullary_live:
+            tag, alt = live[0]
+            self.ctx.oblige("safety", st, v.ty.is_(v.t, tag), getattr(node, "lineno", 0), "captured union value is a %s" % alt)
+            return V(alt, v.ty.val(v.t, tag))
+        return v
+
+    def comp_fold_range(self, comp, st):
+        """[E for i in range(N) if C]  (list mode): a recursive function of the index"""
+        g = comp.generators[0]
+        n_v = coerce(self.ev(g.iter.args[0], st), INT)
+        used = set()
+        for part in [comp.elt] + list(g.ifs):
+            used |= {n.id for n in ast.walk(part) if isinstance(n, ast.Name)}
+        tname = g.target.id
+        free = [(n, self._prenarrow(st.env[n], st, comp)) for n in sorted(used & set(st.env))
+                if n != tname and isinstance(st.env[n], V) and st.env[n].ty is not NONE]
+        ct = getattr(self.ctx.contract, "comp_types", None) or {}
+        rty = ct.get(getattr(comp, "_comp_no", None)) or ct.get("*")
+        if rty is None:
+            rty = getattr(self, "ret_ty", None) if isinstance(getattr(self, "ret_ty", None), (SeqT, ListT)) else None
+        import hashlib as _h
+        sig = "range|%s|%s|%s|%s|%s" % (ast.unparse(comp.elt), tname, [ast.unparse(c) for c in g.ifs], [(n, v.ty.name) for n, v in free],
+                                         rty.name if rty is not None else None)
+        fname = "compr_" + _h.md5(sig.encode()).hexdigest()[:10]
+        if fname not in _comp_cache:
+            pi, pn = z3.Int(fname + "_i"), z3.Int(fname + "_n")
+            fps = [z3.Const(fname + "_" + n, v.ty.sort()) for n, v in free]
+            sub = State({n: V(v.ty, p) for (n, v), p in zip(free, fps)})
+            for n, v in st.env.items():
+                if n not in sub.env and not isinstance(v, V):
+                    sub.env[n] = v
+            sub.env[tname] = V(INT, pi)
+            old_spec = self.ctx.spec_mode
+            self.ctx.spec_mode = True
+            try:
+                conds = [truthy(self.ev(c, sub)) for c in g.ifs]
+                cond = z3.And(*conds) if conds else z3.BoolVal(True)
+                elt = self.ev(comp.elt, sub)
+            finally:
+                self.ctx.spec_mode = old_spec
+            if rty is None and isinstance(elt, V) and not isinstance(elt.ty, (ListT, DictT)):
+                rty = SeqT(elt.ty)
+            if rty is None:
+                raise Unsupported("list comprehension over range at line %d needs a declared type (comp_types)" % comp.lineno)
+            f = rec_function(fname, *([z3.IntSort(), z3.IntSort()] + [p.sort() for p in fps] + [rty.sort()]))
+            rec = f(*([pi + 1, pn] + fps))
+            e = coerce(elt, rty.elem).t
+            if isinstance(rty, SeqT):
+                body = z3.If(z3.And(pi >= 0, pi < pn), z3.If(cond, z3.Concat(z3.Unit(e), rec), rec), z3.Empty(rty.sort()))
+            else:
+                body = z3.If(z3.And(pi >= 0, pi < pn), z3.If(cond, rty.cons(e, rec), rec), rty.nil)
+            add_definition(f, [pi, pn] + fps, body)
+            _comp_cache[fname] = (f, rty)
+        f, rty = _comp_cache[fname]
+        return V(rty, f(*([z3.IntVal(0), n_v.t] + [v.t for _, v in free])))
 
     def comp_fold_zip(self, comp, st, mode):
         """all(E for x in zip(A, B)) / any(...) over two sequences: pairwise, up to the shorter one"""
@@ -788,6 +879,9 @@ class Exec:
                 self.ctx.oblige("safety", st, ty.is_(recv.t, tag), line, "method .%s on a union value that is not a %s" % (name, alt))
                 recv = V(alt, ty.val(recv.t, tag))
                 ty = alt
+            elif name in ("keys", "items", "values", "get"):
+                recv = self.narrow(recv, st, lambda a: isinstance(a, (DictT, RecT)), line, "method .%s" % name)
+                ty = recv.ty
         meths = getattr(ty, "methods", None)
         if meths and name in meths:
             return meths[name](self, recv, recv_node, args, kwargs, st, node)
@@ -1106,7 +1200,10 @@ def lift_ns(x):
 # builtins
 
 def _b_len(ex, args, kwargs, st, node):
-    return V(INT, length(args[0]))
+    v = lift(args[0])
+    if isinstance(v, V) and isinstance(v.ty, UnionT):
+        v = ex.narrow(v, st, lambda a: isinstance(a, (DictT, ListT, SeqT)) or a is STR, getattr(node, "lineno", 0), "len()")
+    return V(INT, length(v))
 
 
 def _b_all_any(mode):
